@@ -27,6 +27,7 @@ import (
 
 const (
 	lifeShort   = 500 * time.Millisecond
+	lifeMid     = time.Second
 	lifeDefault = 4 * time.Second
 )
 
@@ -38,6 +39,9 @@ type iOp struct {
 	cbp, mbf        bool
 	tok, short, dup bool
 	zero            bool // explicit InterestLifetime of 0: the Interest expires the moment it arrives
+	// rep: an unchanged retransmission - the nonce of the latest Interest THIS face sent for this name
+	// (dup: the latest fresh nonce ANY face sent for the name); mid: InterestLifetime 1 s
+	rep, mid bool
 	// tokLen: length of the PIT token the downstream supplies (with tok; 0 = the 2-byte default).
 	// A downstream chooses its own format: 1 byte, 6 bytes that LOOK like a token of this forwarder
 	// (another YaNFD downstream), 8 bytes (NDN-DPDK), 32 bytes (the NDNLPv2 maximum)
@@ -247,6 +251,19 @@ var slices = map[string]slice{
 		dextra: []dOp{{face: fwsim.N2, name: "/a/b"}, {face: fwsim.N2, name: "/a/b/c"}, {face: fwsim.N2, name: "/a/b", tok: "echo1"}, {face: fwsim.N2, name: "/a/b/c", tok: "echoGone"}},
 		tops:   []tOp{r700, r300, t600, t5s},
 	},
+	// RETRANSMISSIONS: one name, two consumer faces; every Interest again from the same face with the
+	// same nonce (rep: an unchanged retransmission) or a fresh one, with a lifetime that ends before, at
+	// or after the earlier deadline (500 ms | 1 s | 4 s in every order), inside (100 ms) and outside
+	// (600 ms) the 500 ms suppression interval; the same nonce from the other face (dup: a loop) and on
+	// the CanBePrefix twin entry; then Data by name / by token at instants between the earlier and the
+	// renewed deadline, with the reaper having run in between. "Pending at that moment" follows the
+	// lifetime of the Interest the face sent LAST.
+	"retx": {
+		inames: []string{"/a"}, ifaces: []uint64{fwsim.L1, fwsim.N3}, shapes: []string{"", "short", "rep", "rep+short", "rep+mid", "dup"},
+		iextra: []iOp{{face: fwsim.L1, name: "/a", cbp: true, rep: true}, {face: fwsim.L1, name: "/a", tok: true, rep: true, mid: true}},
+		dnames: []string{"/a"}, dfaces: []uint64{fwsim.N2}, dtoks: []string{"none", "echo0"}, dfresh: []bool{false},
+		tops: []tOp{t100, t600, t5s},
+	},
 	"time": {
 		inames: []string{"/a", "/a/b"}, ifaces: []uint64{fwsim.L1, fwsim.N3}, shapes: []string{"", "short", "cbp+short", "dup", "short+tok", "dup+tok", "zero"},
 		dnames: []string{"/a", "/a/b"}, dfaces: []uint64{fwsim.N2, fwsim.N3}, dtoks: []string{"none", "echo0"}, dfresh: []bool{false},
@@ -322,6 +339,12 @@ func (s slice) ops() (names []string, defs map[string]opDef) {
 		if o.zero {
 			fl = append(fl, "zero")
 		}
+		if o.rep {
+			fl = append(fl, "rep")
+		}
+		if o.mid {
+			fl = append(fl, "mid")
+		}
 		sh := strings.Join(fl, "+")
 		if sh == "" {
 			sh = "plain"
@@ -365,6 +388,10 @@ func (s slice) ops() (names []string, defs map[string]opDef) {
 							o.dup = true
 						case "zero":
 							o.zero = true
+						case "rep":
+							o.rep = true
+						case "mid":
+							o.mid = true
 						default:
 							var n int
 							if _, err := fmt.Sscanf(x, "tok%d", &n); err != nil || n < 1 || n > 32 {
@@ -433,6 +460,9 @@ type sys struct {
 	// all: "t<K>/<N>" - N forwarding threads, all alive; the names of the universe are dispatched to
 	// thread K, whose PIT the reference is cross-checked against
 	all bool
+	// trackOwn: the alphabet has unchanged retransmissions ("rep"): the latest nonce per (face, name)
+	// and its dead-nonce status are part of the canonical state
+	trackOwn bool
 }
 
 type inst struct {
@@ -507,6 +537,9 @@ func build(cfgName string) explore.System {
 	for _, d := range s.defs {
 		if d.i != nil && d.i.name == "/" {
 			hasRoot = true
+		}
+		if d.i != nil && d.i.rep {
+			s.trackOwn = true
 		}
 	}
 	if hasRoot && (t1 || s.all) {
@@ -600,6 +633,7 @@ func (in *inst) echoTok(t uint32) []byte {
 func (s *sys) New() any {
 	in := &inst{sim: fwsim.New(s.cfg), ref: newRef(s.cfg.CsAdmit && s.cfg.CsServe), all: s.all}
 	in.ref.deferIssue = s.deferred
+	in.ref.trackOwn = s.trackOwn
 	in.refresh()
 	return in
 }
@@ -642,6 +676,11 @@ func (s *sys) Ops(i any) []explore.Op {
 		}
 		if d.i != nil && d.i.dup {
 			if _, ok := in.ref.lastNonce[d.i.name]; !ok {
+				continue
+			}
+		}
+		if d.i != nil && d.i.rep {
+			if _, ok := in.ref.lastOwn[ownKey(d.i.face, d.i.name)]; !ok {
 				continue
 			}
 		}
@@ -777,13 +816,17 @@ func (s *sys) step(in *inst, op explore.Op, check bool) (v []report.Violation) {
 			io := &iOp{face: o.face, name: fmt.Sprintf("%s/z%d", o.base, i), short: true}
 			sends := in.inject(o.face, fwsim.MakeInterest(fwsim.InterestSpec{Name: io.name, Nonce: fwsim.U32(nonce), Lifetime: fwsim.Dur(lifeShort)}), fwsim.LP{})
 			stepSends = append(stepSends, sends...)
-			v = append(v, in.ref.onInterest(in, io, nonce, lifeShort, nil, sends, now)...)
+			in.ref.dumpStale = true
+			v = append(v, in.ref.onInterest(in, io, nonce, lifeShort, nil, sends, now, false)...)
+			in.ref.dumpStale = false
 		}
 		in.refresh()
 	case d.i != nil:
 		o := d.i
 		var nonce uint32
-		if o.dup {
+		if o.rep {
+			nonce = in.ref.lastOwn[ownKey(o.face, o.name)]
+		} else if o.dup {
 			nonce = in.ref.lastNonce[o.name]
 		} else {
 			in.ref.nonceCtr++
@@ -795,6 +838,10 @@ func (s *sys) step(in *inst, op explore.Op, check bool) (v []report.Violation) {
 			life = lifeShort
 			is.Lifetime = fwsim.Dur(lifeShort)
 		}
+		if o.mid {
+			life = lifeMid
+			is.Lifetime = fwsim.Dur(lifeMid)
+		}
 		if o.zero {
 			life = 0
 			is.Lifetime = fwsim.Dur(0)
@@ -803,10 +850,12 @@ func (s *sys) step(in *inst, op explore.Op, check bool) (v []report.Violation) {
 		if o.tok {
 			lp.PitToken = tokenOf(o.face, o.tokLen, in.sim.ThreadID())
 		}
+		// "a nonce recorded as dead" (C02) - asked before the arrival, of the thread that will process it
+		deadBefore := in.sim.DnlHas(fwsim.Name(o.name), nonce)
 		sends := in.inject(o.face, fwsim.MakeInterest(is), lp)
 		stepSends = sends
 		in.refresh()
-		v = in.ref.onInterest(in, o, nonce, life, lp.PitToken, sends, now)
+		v = in.ref.onInterest(in, o, nonce, life, lp.PitToken, sends, now, deadBefore)
 	case d.d != nil:
 		o := d.d
 		ds := fwsim.DataSpec{Name: o.name, Content: "x"}
@@ -978,7 +1027,7 @@ func (s *sys) Canon(i any) string {
 			}
 			toks := append([]string{}, rc.tokens...)
 			sort.Strings(toks)
-			fmt.Fprintf(&b, " %d:%s:%x", f, ex, toks)
+			fmt.Fprintf(&b, " %d:%s:%x:%s", f, ex, toks, s.nonceClass(r, k.name, rc.nonce))
 		}
 		b.WriteString("]")
 	}
@@ -1008,6 +1057,21 @@ func (s *sys) Canon(i any) string {
 		}
 		b.WriteString("]")
 	}
+	// unchanged retransmissions: the latest nonce per (face, name) and whether it is recorded as dead
+	if s.trackOwn {
+		on := make([]string, 0, len(r.lastOwn))
+		for ok := range r.lastOwn {
+			on = append(on, ok)
+		}
+		sort.Strings(on)
+		for _, ok := range on {
+			fmt.Fprintf(&b, "O[%s %s", ok, s.nonceClass(r, ok[strings.Index(ok, "|")+1:], r.lastOwn[ok]))
+			if t, dead := r.deadOwn[ok]; dead {
+				fmt.Fprintf(&b, " dead=%s", fwsim.Saturate(now.Sub(t), 0, s.cfgDnl()+time.Second))
+			}
+			b.WriteString("]")
+		}
+	}
 	// reference cache model
 	cn := make([]string, 0, len(r.csWires))
 	for n := range r.csWires {
@@ -1026,14 +1090,27 @@ func (s *sys) Canon(i any) string {
 	b.WriteString("|")
 	b.WriteString(fwsim.CanonPitCs(in.dump, in.sim.Queue(), fwsim.CanonOpts{
 		Token: tokName,
-		Nonce: func(name string, nonce uint32) string {
-			if l, ok := r.lastNonce[name]; ok && l == nonce {
-				return "L"
-			}
-			return "o"
-		},
+		Nonce: func(name string, nonce uint32) string { return s.nonceClass(r, name, nonce) },
 	}))
 	return b.String()
+}
+
+// nonceClass renames a stored nonce: nonces matter only through equality with the nonces future
+// Interests can carry - the latest fresh nonce of the name ("L", what dup repeats) and, in alphabets
+// with unchanged retransmissions, the latest nonce of each face for the name (what rep repeats).
+func (s *sys) nonceClass(r *ref, name string, nonce uint32) string {
+	c := "o"
+	if l, ok := r.lastNonce[name]; ok && l == nonce {
+		c = "L"
+	}
+	if s.trackOwn {
+		for _, f := range []uint64{fwsim.L1, fwsim.N2, fwsim.N3, fwsim.N4, fwsim.L5, fwsim.A6} {
+			if l, ok := r.lastOwn[ownKey(f, name)]; ok && l == nonce {
+				c += "=" + faceLabel[f]
+			}
+		}
+	}
+	return c
 }
 
 func (s *sys) cfgDnl() time.Duration {
@@ -1080,6 +1157,8 @@ func configs(th bool) (c []explore.Config) {
 		// scale (bursts of 101 / 250 distinct names falling due in one reaper period) and backlogged
 		// faces (what a face was handed is read when it serialises its queue, at the next clock step):
 		// small alphabets first, what they leave of their share of the budget goes to the others
+		add("retx", "br", "cs0", "tree", 5)
+		add("retx", "mc", "cs1", "ht", 4)
 		add("burst", "br", "cs0", "tree", 3)
 		// token shapes (both directions) and the root name: small alphabets, both strategies
 		add("tokshape", "br", "cs1", "tree", 4)
@@ -1143,6 +1222,9 @@ func configs(th bool) (c []explore.Config) {
 	}
 	// scale (bursts) and backlogged / late-reading faces, both strategies
 	for _, st := range []string{"br", "mc"} {
+		add("retx", st, "cs0", "tree", 6)
+		add("retx", st, "cs1", "ht", 5)
+		add("retx", st, "cs0", "ht t0/2 link", 5)
 		add("burst", st, "cs0", "tree", 4)
 		add("core", st, "cs1", "tree defer", 6)
 		add("tokens", st, "cs0", "ht defer", 5)
@@ -1294,15 +1376,15 @@ func main() {
 			cov["dispatch_agreement_pass"] = dispatchPass(rep)
 			cov["threads_alive_pass"] = threadsPass(rep)
 		},
-		Rule: "BFS over histories of Interest arrivals I(face,name,CanBePrefix,MustBeFresh,nonce fresh|repeated,lifetime 4s|500ms|0,PIT token), Data arrivals D(face,name,freshness,token none|echo of a live upstream token|foreign 6-byte|4-byte; alphabet tokshape: every token shape - absent, empty field, fixed bytes of length 1..8 and 32, 6 bytes never issued / naming another thread / naming no thread, a live token extended to 7, 8, 32 bytes or cut to 5, 4 bytes - against downstream tokens of 1, 2, 6 (own-looking), 8, 32 bytes) and clock steps T(dt)+reaper tick / A(dt) without tick, on one real fw.Thread with real PIT-CS, dead nonce list, FIB (tree, hash table) and strategies (best-route, multicast), cache on/off/admit-only, content-store capacity 1024 (never evicts) and 0|1|2 on the cache alphabet; focused alphabets (names, tokens, flags, time, cache, burst = B(face,k): k in {101,250} Interests with distinct names and the 500 ms lifetime arriving in one step); recording faces that read what they were handed (PIT token, bytes) at the SendPacket call, or only after the pipeline call returned ('late'), or - backlogged faces, 'defer' - only at the next clock step, the token read THEN being the one the upstream can echo and the Data copy read THEN being judged again; after every transition every SendPacket is compared with a three-valued reference of pending Interests and the reference is cross-checked against the white-box PIT dump; alphabet extend: 500 ms Interests for three names whose queued expiry is moved later by a 4 s retransmission / aggregation in every order, with the reaper at its true cadence R(dt) = dt/100 ms steps each followed by the periodic arms; configurations t<K>/<N>: N real forwarding threads ALL alive, the universe on thread K, every arrival processed by the thread(s) the real dispatch rule picks, an echoed token being exactly the six bytes the upstream face was handed; plus the threads-alive pass (thread counts 1,2,3,4,5,8,16 x both strategies x both arrival paths x 51 names x every prefix: token round trip per name, and all names pending at once on all threads answered in reverse order); states de-duplicated on reference + white-box dump (clock-relative, tokens renamed by entry, nonces by equality with the last nonce per name)",
+		Rule: "BFS over histories of Interest arrivals I(face,name,CanBePrefix,MustBeFresh,nonce fresh|repeating the latest fresh nonce of the name (dup)|repeating the latest nonce of the SAME face for the name (rep: unchanged retransmission),lifetime 4s|1s|500ms|0,PIT token), Data arrivals D(face,name,freshness,token none|echo of a live upstream token|foreign 6-byte|4-byte; alphabet tokshape: every token shape - absent, empty field, fixed bytes of length 1..8 and 32, 6 bytes never issued / naming another thread / naming no thread, a live token extended to 7, 8, 32 bytes or cut to 5, 4 bytes - against downstream tokens of 1, 2, 6 (own-looking), 8, 32 bytes) and clock steps T(dt)+reaper tick / A(dt) without tick, on one real fw.Thread with real PIT-CS, dead nonce list, FIB (tree, hash table) and strategies (best-route, multicast), cache on/off/admit-only, content-store capacity 1024 (never evicts) and 0|1|2 on the cache alphabet; focused alphabets (names, tokens, flags, time, cache, burst = B(face,k): k in {101,250} Interests with distinct names and the 500 ms lifetime arriving in one step); recording faces that read what they were handed (PIT token, bytes) at the SendPacket call, or only after the pipeline call returned ('late'), or - backlogged faces, 'defer' - only at the next clock step, the token read THEN being the one the upstream can echo and the Data copy read THEN being judged again; after every transition every SendPacket is compared with a three-valued reference of pending Interests and the reference is cross-checked against the white-box PIT dump; alphabet retx: one name, two consumer faces, every Interest retransmitted by the same face with the same or a fresh nonce and a lifetime ending before / at / after the earlier deadline (500 ms, 1 s, 4 s in every order), inside and outside the 500 ms suppression interval, the same nonce from the other face and on the CanBePrefix twin entry, then Data by name / token at instants between the earlier and the renewed deadline; an Interest repeating a (name, nonce) must become pending with ITS lifetime unless another face holds a pending Interest of that name with the nonce or the nonce was recorded as dead before the arrival; alphabet extend: 500 ms Interests for three names whose queued expiry is moved later by a 4 s retransmission / aggregation in every order, with the reaper at its true cadence R(dt) = dt/100 ms steps each followed by the periodic arms; configurations t<K>/<N>: N real forwarding threads ALL alive, the universe on thread K, every arrival processed by the thread(s) the real dispatch rule picks, an echoed token being exactly the six bytes the upstream face was handed; plus the threads-alive pass (thread counts 1,2,3,4,5,8,16 x both strategies x both arrival paths x 51 names x every prefix: token round trip per name, and all names pending at once on all threads answered in reverse order); states de-duplicated on reference + white-box dump (clock-relative, tokens renamed by entry, nonces by equality with the last nonce per name)",
 		Assumptions: []string{
 			"'a token in this forwarder's format' = exactly six bytes; it echoes a token this forwarder attached only if its first two bytes name the driven thread and the last four are an entry token that left on a forwarded Interest; six bytes naming another thread satisfy nothing; every other length (also 7..32 bytes that START with a live token) is matched by name",
 			"faces are simulated at the dispatch.Face seam: a received frame is turned into defn.Pkt exactly as NDNLPLinkService.handleIncomingFrame + dispatchInterest/dispatchData do (copied field by field in verif/harness/fwsim), one driven forwarding thread (id 0; 't1': thread 1 of 2 with the other thread idle); in the configurations 't<K>/<N>' and in the threads-alive pass all N threads are alive and a packet is processed by every thread the real dispatch rule (name hash / thread id in a 6-byte token / all prefix threads for token-less Data of a local face) hands it to, in thread order",
 			"the clock is virtual (verif/shim/vtime) and PIT tokens come from verif/shim/vrand; the reaper runs only in T(dt) steps, once, after the clock moved",
 			"equal canonical state (reference records + live tokens + per-name nonce/dead-nonce status + private PIT-CS dump with queue priorities, all times relative to now) implies equal futures; out-record ages are saturated at the 500 ms suppression window, expired times at 0",
-			"where the property leaves a choice the observed behaviour is adopted into the reference: whether an Interest of a non-local face whose cache answer (/localhost Data matching '/' + CanBePrefix) a scope rule withholds counts as answered or stays pending; whether an Interest repeating an already seen (name, nonce) is recorded; whether a record past its own lifetime still exists; whether Data echoing a token that was not attached to the currently pending Interest of that entry matches",
+			"where the property leaves a choice the observed behaviour is adopted into the reference: whether an Interest of a non-local face whose cache answer (/localhost Data matching '/' + CanBePrefix) a scope rule withholds counts as answered or stays pending; whether an Interest repeating a (name, nonce) is recorded WHEN it may be a loop in the words of C02 - another face holds a pending Interest for that name carrying the nonce, or the nonce was on the dead nonce list just before the arrival (white-box) - and only then: a retransmission repeating a nonce only its own face holds (or nobody any more) that is not recorded as dead must become pending until arrival + its lifetime, like a fresh one; whether a record past its own lifetime still exists; whether Data echoing a token that was not attached to the currently pending Interest of that entry matches",
 			"a record whose own lifetime elapsed may or may not receive a copy until the latest lifetime among all Interests that ever arrived for its PIT entry has elapsed and the reaper has run twice since (the 'shortly after' of C08); from then on a copy, or a surviving in-record, is a C01.only violation",
-			"name universe {/,/a,/a/b,/a/b/c,/localhost/x} (+ /a/z0../a/z249 in the burst alphabet; the zero-component name / is in the alphabets root, names, flags, cache, time and in the dispatch pass, with a default route so that it is forwarded); lifetimes {4 s default, 500 ms, explicit 0}; clock steps {100 ms, 600 ms, 5 s}; faces L1,L5 local, N2,N3,N4 non-local, A6 ad-hoc",
+			"name universe {/,/a,/a/b,/a/b/c,/localhost/x} (+ /a/z0../a/z249 in the burst alphabet; the zero-component name / is in the alphabets root, names, flags, cache, time and in the dispatch pass, with a default route so that it is forwarded); lifetimes {4 s default, 1 s (retx alphabet), 500 ms, explicit 0}; clock steps {100 ms, 600 ms, 5 s}; faces L1,L5 local, N2,N3,N4 non-local, A6 ad-hoc",
 			"a face keeps the dispatch.OutPkt it was handed the way the real link service keeps it in its send queue (the struct value; nothing it points to is copied) and may serialise it any time after SendPacket returned: at once, when the pipeline call has returned ('late'), or at the next clock step ('defer', all faces backlogged; until then the upstream cannot echo the token). 'The PIT token this forwarder attached when it forwarded that Interest' is the token the face reads when it serialises; a token that left attached to the Interests of several PIT entries makes an echoing Data satisfy each of them",
 		},
 	})
